@@ -6,7 +6,7 @@ from concurrent.futures import ThreadPoolExecutor
 import common, lbtool, owntool
 
 C02_KINDS = ('view-corrupt', 'free-while-view-live', 'content-not-intact', 'impl-crash')
-C03_KINDS = ('hang:', 'double-free', 'foreign-free', 'caller-memory-freed', 'caller-memory-written', 'freed-block-in-chain', 'private-copy-in-pool-block', 'impl-crash')
+C03_KINDS = ('hang:', 'double-free', 'free-of-unconsumed-data', 'free-while-view-live', 'foreign-free', 'caller-memory-freed', 'caller-memory-written', 'freed-block-in-chain', 'private-copy-in-pool-block', 'impl-crash')
 KNOWN_TAG = 'D4-split-block'
 HARNESS_TIMEOUT = int(os.environ.get('VERIF_HARNESS_TIMEOUT', '900'))
 MODEL_VISIBLE = ('double-free', 'free-while-view-live', 'freed-block-in-chain', 'foreign-free', 'caller-memory-freed')
@@ -157,6 +157,16 @@ def shrink(binary, seq, kind, wd):
     except Exception:
         return seq
 
+def adapter_held_changed(abin, lines, wd):
+    """run NewReader-adapter op lines (go/cmd/adapter -replay); first HELD-CHANGED reply or None"""
+    os.makedirs(wd, exist_ok=True)
+    p = os.path.join(wd, 'replay.ops'); out = os.path.join(wd, 'replay.impl')
+    open(p, 'w').write('\n'.join(lines) + '\n')
+    subprocess.run([abin, '-replay', p, '-impl-out', out], timeout=120)
+    for r in read(out):
+        if r.startswith('HELD-CHANGED'): return r
+    return None
+
 def check(rep, prop, kinds, modules):
     """shared body of checks/c02.py and checks/c03.py"""
     import glob, shutil, json
@@ -185,7 +195,7 @@ def check(rep, prop, kinds, modules):
                    sequences_cut_at_known_finding=tainted, ledger_events_compared=ledger, ledger_node_records_compared=lnodes, known_finding_reproduced_on_model=kmodel, calls_vs_theorem_hypotheses=dict(covc), traces_validated_against_impl=n,
                    samples=results[-1]['samples'],
                    rule='contract-respecting LinkBuffer op sequences (generator of C01) executed on the real code with an allocator that never reuses and poisons freed blocks; '
-                        'every zero-copy result is re-compared with its snapshot after every later op until its reader is released; every pool Free is checked (once, pool block, no live view, no chained node); '
+                        'every zero-copy result is re-compared with its snapshot after every later op until its reader is released; every pool Free is checked (once, pool block, no live view, no chained node, no unconsumed data of a live buffer on it at the moment of the Free); '
                         'caller slices are checksummed; results and node contents are compared with the Lean model. distinct_nontrivial = distinct (event list, final dump) pairs')
     rep.assumptions += ['A-atomic-refer: operations on buffers sharing a refcount interleave as whole operations (single goroutine in the harness)',
                         'contract clause 9: book/bookAck only on buffers never written through the Writer API (the connection input buffer)']
@@ -216,7 +226,13 @@ def check(rep, prop, kinds, modules):
                 if o.startswith('seq '): start = i
                 if o.startswith('zr ') and ' new ' in o: nz += 1
                 if r.startswith('HELD-CHANGED'):
-                    problems.append((['# NewReader adapter sequence (replay: go/bin/adapter -replay <file with the lines below, without the leading "# ">)'] + ['# ' + x for x in ol[start:i + 1]], 0, 'view-corrupt', 'through the NewReader adapter: ' + r[:300]))
+                    seq = ol[start:i + 1]; hdr = seq[0]
+                    try:
+                        seq = [hdr] + lbtool.shrink(abin, seq[1:], awd, lambda ls: adapter_held_changed(abin, [hdr] + ls, awd) is not None)
+                    except Exception:
+                        pass
+                    problems.append((['# NewReader adapter sequence (go/cmd/adapter; ./check C02 --replay runs it): every result of Next/Peek/Until is re-compared after every later op until "rel"'] + seq,
+                                     0, 'view-corrupt', 'through the NewReader adapter: ' + r[:300]))
                     break
             rep.cov['adapter_reader_sequences'] = nz
     mine = [p for p in problems if p[2] in kinds]
@@ -238,8 +254,17 @@ def check(rep, prop, kinds, modules):
         print('KNOWN-FINDING: property=%s %s (seen in %d sequences of this run)' % (prop, k['what'], tainted))
 
 def replay(rep, prop, kinds, path):
-    binary, out = common.build_harness('lbdiff'); common.lake_build(['npdriver'])
     lines = [l for l in open(path).read().split('\n') if l and not l.startswith('#')]
+    if any(l.startswith('zr ') for l in lines):
+        # a sequence on the NewReader adapter (C02 through the io.Reader adapter)
+        abin, out = common.build_harness('adapter')
+        r = adapter_held_changed(abin, lines, os.path.join(common.WORK, 'replay_' + prop))
+        rep.cov['evaluations'] = 1
+        if r:
+            print('REPLAY: view-corrupt: ' + r)
+            if 'view-corrupt' in kinds: rep.violation('replay reproduces: through the NewReader adapter: ' + r, lines)
+        return rep.finish('proof')
+    binary, out = common.build_harness('lbdiff'); common.lake_build(['npdriver'])
     r = replay_ops(binary, lines, os.path.join(common.WORK, 'replay_' + prop))
     rep.cov['evaluations'] = r['seqs']
     for p in r['problems']: print('REPLAY: %s: %s' % (p[2], p[3]))
